@@ -29,7 +29,7 @@ THEOREMS_R = [B + t for t in ["C08_mirror_normal", "C08_mirror_tangential", "C08
                               "C08_stochastic_position", "C08_reemitted_inside", "C08_mirror_rat_instance", "C08_bounce_back_rat_instance"]]
 F = "Sympler.PropsR.C08F."
 THEOREMS_F = [F + t for t in ["gslReal_spec", "insertionSort_spec", "C08F_sound", "C08F_sound_ge", "C08F_complete", "C08F_first_crossing", "C08F_sorted",
-                              "firstHit_of_min", "C08F_hit_reports_first_crossing", "C08F_timeEps"]]
+                              "firstHit_of_min", "C08F_hit_reports_first_crossing", "C08F_traj_is_hitPos", "C08F_timeEps"]]
 TR3 = "translator t_hittime (IntegratorVelocityVerlet::solveHitTimeEquation statement by statement: both branches, every push_back, the sort, early returns)"
 BR = ["Sympler.Collide." + t for t in ["Bridge_hitTime", "Bridge_wallHit", "Bridge_better", "Bridge_remaining", "Bridge_loop_constants"]]
 MODULES = ["Sympler.Collide", "Sympler.CollideLemmas", "Sympler.CollideStepLemmas", "PropsR.Gen.ReflectorsReal", "Sympler.Gen.CollideGen", "Props.C08", "Props.CollideBridge", "PropsR.C08",
